@@ -21,6 +21,7 @@ func init() {
 			{ID: "C08.R3", Floor: 4, Doc: "count paired with successful CAS; Clear returns false without decrement when already clear", Run: c08r3},
 			{ID: "C08.R4", Floor: 6, Doc: "capacity, reserved id 0 and index ranges by construction", Run: c08r4},
 			{ID: "C08.R5", Floor: 2, Doc: "who-may-call: GetStream only from exec, Clear only from releaseStream", Run: c08r5},
+			{ID: "C08.R6", Floor: 1, Doc: "GetStream reports exhaustion only after its scan visited every word (never from the lagging in-use counter)", Run: c08r6},
 		},
 	})
 }
@@ -1152,4 +1153,95 @@ func testsBitOf(info *types.Info, n ast.Node, obj types.Object) bool {
 		return true
 	})
 	return found
+}
+
+// c08r6: the in-use counter is updated after the bit (Clear decrements after its compare-and-swap, GetStream
+// increments after its own), so it may lag the bitmap in either direction. "No stream available" may therefore be
+// concluded only from the bitmap: every `return _, false` of GetStream is reached only through the normal end of the
+// loop that visits the words (the loop whose body, directly or through a helper, holds the claiming CAS).
+func c08r6(p *Program, r *Report) {
+	fi := r.NeedFunc("streams.(*IDGenerator).GetStream")
+	if fi == nil {
+		return
+	}
+	sites, _ := casSites(p)
+	g := p.GraphOf(fi)
+	info := g.Info
+	// functions that (transitively, two levels) contain a claiming CAS
+	claims := map[*FuncInfo]bool{}
+	for _, st := range sites {
+		if st.claim {
+			claims[st.fi] = true
+		}
+	}
+	holdsClaim := func(n ast.Node) bool {
+		found := false
+		ast.Inspect(n, func(x ast.Node) bool {
+			c, ok := x.(*ast.CallExpr)
+			if !ok {
+				return true
+			}
+			for _, st := range sites {
+				if st.claim && st.call == c {
+					found = true
+				}
+			}
+			if fn := calleeOf(info, c); fn != nil && claims[p.FuncOf(fn)] {
+				found = true
+			}
+			return true
+		})
+		return found
+	}
+	// the outermost loop that holds the claim
+	var scan ast.Stmt
+	ast.Inspect(fi.Decl.Body, func(x ast.Node) bool {
+		switch l := x.(type) {
+		case *ast.ForStmt:
+			if scan == nil && holdsClaim(l.Body) {
+				scan = l
+				return false
+			}
+		case *ast.RangeStmt:
+			if scan == nil && holdsClaim(l.Body) {
+				scan = l
+				return false
+			}
+		}
+		return true
+	})
+	if scan == nil {
+		r.Unresolved("GetStream: the loop over the words that claims a bit was not found")
+		return
+	}
+	ef := g.Events(func(st Step) []string {
+		switch st.Kind {
+		case StCond:
+			if f, ok := scan.(*ast.ForStmt); ok && !st.Val && f.Cond != nil && st.Node == ast.Node(f.Cond) {
+				return []string{"scanDone"}
+			}
+		case StRange:
+			if !st.Val && st.Node == ast.Node(scan) {
+				return []string{"scanDone"}
+			}
+		}
+		return nil
+	})
+	n := 0
+	for _, e := range g.Exits() {
+		rs, ok := e.Node.(*ast.ReturnStmt)
+		if !ok || len(rs.Results) != 2 {
+			continue
+		}
+		if v, isK := info.Types[rs.Results[1]]; !isK || v.Value == nil || v.Value.String() != "false" {
+			continue
+		}
+		n++
+		s, _ := ef.ExitState(e)
+		r.Check(s.Must["scanDone"], rs, "(*IDGenerator).GetStream reports 'no stream available' only after scanning every word", "reached through the normal end of the scan loop",
+			"GetStream can answer 'no stream available' without having looked at every word of the bitmap (for instance from the in-use counter, which lags the bitmap while a Clear is between its compare-and-swap and its decrement): a request fails although an id is free")
+	}
+	if n == 0 {
+		r.Unresolved("GetStream never reports exhaustion")
+	}
 }
